@@ -51,15 +51,28 @@ Raise == /\ ph = "raise"
             ELSE ph' = "orders" /\ UNCHANGED verdict
          /\ UNCHANGED <<tid, j, seen>>
 
+\* Classification of a difference (not a verdict of its own): the recorder also logs, for every position hook, its name, the
+\* minute, the price the strategy saw (self.price) and whether that minute lies inside a chunk with a raw open different
+\* from the previous close (ig = 1; computed from the input series).  If the first hook observation that differs between the
+\* runs is only a different price in such a minute and it is not later than the first differing order, the difference is
+\* reported under the known defect class "inner-gap-fill" (the fast simulator does not jump-fix the minutes inside a chunk).
+Min2(a, b) == IF a < b THEN a ELSE b
+KnownClass(t, md) ==
+  LET hn == Nm(t).hooks  hf == Fs(t).hooks
+      D  == {i \in 1..Min2(Len(hn), Len(hf)) : hn[i] # hf[i]}
+  IN D # {} /\ LET i == CHOOSE x \in D : \A y \in D : x <= y
+               IN hn[i].h = hf[i].h /\ hn[i].t = hf[i].t /\ hn[i].p # hf[i].p /\ hf[i].ig = 1 /\ hf[i].t <= md
+Classify(t, v, md) == IF KnownClass(t, md) THEN "orders-differ-after:hook-price:inner-gap-fill" ELSE v
 OrderFields == <<"side", "type", "qty", "price", "minute">>
 OrderDiff(a, b) == IF a.side # b.side THEN "side" ELSE IF a.type # b.type THEN "type" ELSE IF a.qty # b.qty THEN "qty"
                    ELSE IF a.price # b.price THEN "price" ELSE IF a.minute # b.minute THEN "minute" ELSE "none"
 Orders == /\ ph = "orders"
           /\ LET a == Nm(tid).fills  b == Fs(tid).fills IN
              IF j > Len(a) /\ j > Len(b) THEN ph' = "trades" /\ j' = 1 /\ UNCHANGED verdict
-             ELSE IF j > Len(a) THEN verdict' = "orders:fast-executes-more:" \o b[j].type /\ UNCHANGED <<ph, j>>
-             ELSE IF j > Len(b) THEN verdict' = "orders:fast-executes-fewer:" \o a[j].type /\ UNCHANGED <<ph, j>>
-             ELSE IF OrderDiff(a[j], b[j]) # "none" THEN verdict' = "orders:" \o OrderDiff(a[j], b[j]) /\ UNCHANGED <<ph, j>>
+             ELSE IF j > Len(a) THEN verdict' = Classify(tid, "orders:fast-executes-more:" \o b[j].type, b[j].minute) /\ UNCHANGED <<ph, j>>
+             ELSE IF j > Len(b) THEN verdict' = Classify(tid, "orders:fast-executes-fewer:" \o a[j].type, a[j].minute) /\ UNCHANGED <<ph, j>>
+             ELSE IF OrderDiff(a[j], b[j]) # "none"
+                  THEN verdict' = Classify(tid, "orders:" \o OrderDiff(a[j], b[j]), Min2(a[j].minute, b[j].minute)) /\ UNCHANGED <<ph, j>>
              ELSE j' = j + 1 /\ UNCHANGED <<ph, verdict>>
           /\ UNCHANGED <<tid, seen>>
 
